@@ -21,6 +21,9 @@ var c08Exprs = []string{
 	".a | group_by(.)", ".a | flatten", ".a | flatten(1)", ".a | map(. )", ".a | map(select(. == 1))", ".a | filter(. == 1)", ".a | any", ".a | all", ".a | any_c(. == 1)", ".a | all_c(. == 1)",
 	".a | contains([1])", ".b | contains({\"c\": 1})", ".s | contains(\"t\")", ".a | join(\",\")", ".s | split(\"t\")", ".a | to_entries", ".b | to_entries", ".b | to_entries | from_entries",
 	".b | with_entries(.)", "pick([\"a\"])", "pick([\"nokey\"])", "omit([\"a\"])", ".a | pick([0])", ".a | min", ".a | max", ".a | .[] as $i ireduce (0; . + $i)", ".a[0] as $v | $v + 1",
+	".b as $i ireduce ({}; . * {\"k\": $i.nokey})", "(.b, .b) as $i ireduce ({}; . * {\"k\": $i.nokey})", ".b as $i ireduce ({}; . + {\"k\": $i.nokey})", ".b as $i ireduce ([]; . + [$i.nokey])", ".b as $i ireduce (0; $i.nokey // .)", ".a[] as $i ireduce ({}; . * {\"k\": $i})", ".b as $i ireduce ({}; {\"k\": $i.nokey} * .)",
+	"[.b] | .[] as $i ireduce ({}; . * {\"k\": $i.nokey})", ".b as $i | {\"k\": $i.nokey}", ".b as $i | ({} | $i.nokey)", ".b as $i | ([] | $i.nokey)", "{\"k\": .b.nokey}", "[.b.nokey]", "{} | .x",
+	".b as $i | (1 | $i.nokey)", ".b as $i | (.a | $i.nokey)", "[.b] | .[] as $i ireduce (0; . + ($i.nokey // 1))", ".b as $i | ({\"z\": 1} * {\"k\": $i.nokey})", "(.b | {\"k\": .nokey})", ".b as $i | [$i.nokey, $i.nokey2]",
 	"select(.a)", "select(.missing)", "select(.a[7770001] == 1)", ".a[] | select(. == 1)", "to_entries", "[..] | length", ".a | tag", ".b | kind", ".s | type", ".a[0] | path", ".a[0] | parent", ".a[0] | key",
 	".a | line", ".s | upcase", ".s | downcase", ".s | trim", ".s | to_number", ".a[0] | to_string", ".s | test(\"t\")", ".s | sub(\"t\", \"x\")", ".s | match(\"t\")", ".s | capture(\"(?P<x>t)\")", ".s | length",
 	".a | del(.[0])", ".b | del(.c)", ".a | (.[0] = 5)", ".b | (.c |= 5)", ".b | (.n = 5)", "with_entries(.)", ".a | map_values(. + 1)", ".b | sort_keys(.)", ".a | explode(.)", ".a | shuffle | length", ". as $d | $d.a", "eval(\".a\")",
